@@ -28,6 +28,10 @@ impl<T, E> NoConv<T, E> for &Via<T, E> {}
 NAMES_DEFAULT = ["Foo", "FooBar", "Ab", "FooBarBaz"]
 SNAKE_DEFAULT = ["foo", "foo_bar", "ab", "foo_bar_baz"]
 RAW = {"names": ["r#Type", "r#fn", "r#Match"], "snake": ["type", "fn", "match"]}
+# names outside the `(Upper lower+)+` form: stray underscores (no word of their own) and an acronym; `Self_` is the only way to call a
+# variant "Self".  Expected names by the usual definition of snake_case: words are separated by underscores, by a lower-to-upper
+# step and before the last capital of a run followed by a lower-case letter; empty words are dropped.
+UNDERS = {"names": ["Self_", "_Hidden", "Two__Words", "HTTPServer"], "snake": ["self", "hidden", "two_words", "http_server"]}
 KINDS = {
     "unit": (None, []),
     "t0": (False, []),     # `V()`: a tuple variant with an empty field list
@@ -327,6 +331,9 @@ def run(chk, tier):
     for kinds in (["unit"], ["t1a"], ["unit", "t1a"], ["t2", "unit", "n1"], ["t1a", "t1b", "unit"]):
         add(kinds, dict(RAW))
         add(kinds, dict(RAW, refs=True))
+    for kinds in (["unit", "t1a", "n1", "t2"], ["t1a", "unit", "unit", "t1b"], ["t2", "t1b", "t1a", "unit"]):
+        add(kinds, dict(UNDERS))
+        add(kinds, dict(UNDERS, refs=True))
     # an ignored variant first, an un-attributed one, and one carrying an enabling attribute: the un-attributed
     # variant is not ignored, so its accessors must exist and work
     mix_alpha = ["unit", "t1a", "t1b", "t2"] + (["t2s", "n1"] if thorough else [])
@@ -379,5 +386,5 @@ def run(chk, tier):
             first = res.detail.split("::", 1)[-1].strip().split(":")[0]
             chk.violation("wrong-result cfg=%s %s" % (cfgk, first[:60]), c.meta["src"], res.detail)
     chk.part("engine", bins_built=eng.bins_built, rounds=eng.rounds, build_s=round(eng.build_s, 1))
-    chk.assumptions += ["variant names are of the form (Upper lower+){1,3}, on which snake_case is unambiguous",
+    chk.assumptions += ["variant names are of the form (Upper lower+){1,3}, on which snake_case is unambiguous, plus four names with stray underscores / an acronym (no digits: conventions differ on `V2`)",
                         "Unwrap/TryUnwrap are derived only for enums without named variants (documented restriction)"]
